@@ -4,6 +4,7 @@ package main
 
 import (
 	"go/token"
+	"sort"
 	"strings"
 
 	"golang.org/x/tools/go/ssa"
@@ -25,8 +26,9 @@ func init() {
 		Rules:       []func(*Ctx){ruleC04LatestRevalidated, ruleC04LoaderRejectsInvalid, ruleC04NewKeysStampedNow, ruleC05MergeIdentity},
 	})
 	register(&propSpec{
-		ID:    "C05",
-		Title: "Revocation in the metastore takes effect within the revoke-check interval",
+		ID:            "C05",
+		UsesCallGraph: true,
+		Title:         "Revocation in the metastore takes effect within the revoke-check interval",
 		Explanation: "Structural necessary conditions of C05 on every path: (stale-means-reload) getFresh reports fresh only on the false edge of isReloadRequired(entry, Policy.RevokeCheckInterval), " +
 			"a cached key is returned without a load only when getFresh said fresh, isReloadRequired short-circuits only for already-revoked keys and consults loadedAt, the interval and the clock; " +
 			"(reload-refreshes) the retain-cached-entry path of load copies the reloaded Revoked flag, resets loadedAt from time.Now() and writes the entry back; " +
@@ -622,4 +624,61 @@ func ruleC01NoValidityGateOnRead(c *Ctx) {
 	} else {
 		c.ok("DecryptDataRowRecord/validity-gates", u.pos(start.Pos()), "no validity predicate reachable from the decrypt path")
 	}
+	// no branch on a revoked flag / creation stamp rejects a read: an edge whose condition reads Revoked and from which
+	// only error returns are reachable
+	isRevokedRead := func(v ssa.Value) bool {
+		v = strip(v)
+		if _, fld, ok := fieldAccess(v); ok && fld == "Revoked" {
+			return true
+		}
+		if cv, ok := v.(*ssa.Call); ok && methodNameOf(&cv.Call) == "Revoked" {
+			return true
+		}
+		return false
+	}
+	var revGates []string
+	for f := range reach {
+		if f.Blocks == nil || f.Pkg == nil || f.Pkg.Pkg.Path() != pkgApp {
+			continue
+		}
+		res := f.Signature.Results()
+		if res.Len() == 0 || !isErrorType(res.At(res.Len()-1).Type()) {
+			continue
+		}
+		errIdx := res.Len() - 1
+		for _, b := range f.Blocks {
+			for _, s := range b.Succs {
+				hasRev := false
+				for _, fct := range edgeFacts(b, s) {
+					if isRevokedRead(fct.V) {
+						hasRev = true
+					}
+				}
+				if !hasRev {
+					continue
+				}
+				// is a success return reachable from this edge?
+				succ, _ := pathSearchAt(s, 0, func(j ssa.Instruction) pathAction {
+					if r, ok := j.(*ssa.Return); ok {
+						if isNilValue(returnedValue(r, errIdx)) {
+							return pathFound
+						}
+						if _, isC := strip(returnedValue(r, errIdx)).(*ssa.Const); !isC {
+							if _, isCall := resolve(returnedValue(r, errIdx)).(*ssa.Call); !isCall {
+								return pathFound // error value passed along from a callee: may be nil
+							}
+						}
+						return pathStop
+					}
+					return pathContinue
+				}, nil)
+				if !succ {
+					revGates = append(revGates, trimPkgDirs(shortName(f))+" at "+u.ipos(b.Instrs[len(b.Instrs)-1]))
+				}
+			}
+		}
+	}
+	sort.Strings(revGates)
+	c.check(len(revGates) == 0, "DecryptDataRowRecord/revocation-rejects-read", u.pos(start.Pos()), "no branch on a Revoked flag leads only to error returns on the decrypt path",
+		"on the decrypt path a branch on a revoked flag leads only to error returns: records written under a since-revoked key can no longer be read: "+strings.Join(revGates, "; "))
 }
